@@ -373,3 +373,37 @@ def c19_saveto_sections(sp: int, c0: int) -> bool:
     except PyXFormError:
         return True
     return False
+
+
+# ---- f: two conversions in one process (round 3) -----------------------------------------------------
+import inspect as _insp  # noqa: E402
+import re as _re  # noqa: E402
+
+_src = _insp.getsource(c19_table)
+_src = _src[_src.index("def c19_table(") :].replace("def c19_table(", "def _c19_table_plain(", 1)
+_src = _re.sub(r'    """.*?"""\n', "", _src, count=1, flags=_re.S)
+exec(_src, globals())  # the same oracle without a contract of its own (CrossHair short-circuits contract-bearing callees)
+
+
+def c19_sequence(pe1: bool, pc1: bool, pu1: bool, pe2: bool, pc2: bool, e0: int, c0: int, l0: int) -> bool:
+    """
+    vpre: 97 <= e0 <= 122 and 97 <= c0 <= 122 and 97 <= l0 <= 122
+    vpost: _ == True
+    """
+    first = _c19_table_plain(pe1, pc1, pu1, True, False, e0, 49, c0, 49, 117, 49, l0, 49)
+    second = _c19_table_plain(pe2, pc2, False, True, False, e0, 50, c0, 50, 117, 50, l0, 50)
+    return first and second
+
+
+specialise(
+    "C19",
+    "f.sequence",
+    c19_sequence,
+    {"pe1": [False, True]},
+    timeout=500,
+    kernel=K,
+    shims=("S1", "S2", "S3", "S4"),
+    symbolic="declaration kinds of two forms converted one after the other in one process (create / update / upsert with or without conditions: 4 further symbolic booleans), symbolic first character of entity_id, create_if and label",
+    bounds="two one-question forms with an entities sheet; both must satisfy the decision-table oracle of a.table (state left behind by the first conversion must not reach the second)",
+    weight=80,
+)
